@@ -260,10 +260,57 @@ func c13TwoSchemas(x *mc.Exec) {
 	}
 }
 
+// c13Framing: "accepted if and only if full unmarshaling accepts it" also holds
+// for what surrounds the resource object: leading / trailing whitespace, trailing
+// bytes after the first JSON value, truncation, non-object values, repeated members.
+func c13Framing(x *mc.Exec) {
+	soft := x.Bool("soft")
+	schema := BuildSchema([]TypeD{c13T, {Name: "u"}}, []bool{soft, true})
+	cores := []string{
+		`{"id":"i1","type":"t","attributes":{"s":"v"}}`,
+		`{"id":"i1","type":"t","attributes":{"s":"v","n":7},"relationships":{"one":{"data":{"type":"u","id":"a"}}}}`,
+		`{"id":"i1","type":"t"}`,
+		`{"id":"i1","type":"t","attributes":{"s":"v"},"attributes":{"n":1}}`,
+		`{"id":"i1","type":"t","id":"i2"}`,
+		`{"type":"t"}`, `{"id":"i1"}`, `{}`, `null`, `[]`, `"t"`, `5`, ``,
+		`{"id":"i1","type":"t","attributes":null,"relationships":null}`,
+		`{"id":"i1","type":"t","attributes":[],"relationships":{}}`,
+		`{"id":"i1","type":"t","relationships":{"one":null}}`,
+		`{"id":1,"type":"t"}`, `{"id":"i1","type":null}`,
+	}
+	prefixes := []string{"", " \n\t", "\xef\xbb\xbf", "x", "{", "[", "\x00"}
+	suffixes := []string{"", " \n", "}", ",", "x", "{}", " {}", "\x00", "]", "null", `{"id":"i9","type":"t"}`, "//c", "\n\n\x00"}
+	core := cores[x.Choose(len(cores), "core")]
+	payload := prefixes[x.Choose(len(prefixes), "prefix")] + core + suffixes[x.Choose(len(suffixes), "suffix")]
+	trunc := x.Choose(3, "truncate")
+	if trunc > 0 && len(payload) >= trunc {
+		payload = payload[:len(payload)-trunc]
+	}
+	x.Render(fmt.Sprintf("%q", payload))
+	x.R.Sample("framing", fmt.Sprintf("%q", payload))
+	var ferr, perr error
+	fp := Try(func() { _, ferr = j.UnmarshalResource([]byte(payload), schema) })
+	pp := Try(func() { _, perr = j.UnmarshalPartialResource([]byte(payload), schema) })
+	x.R.Add("transitions", 2)
+	x.Observe(payload, fp, pp, ferr != nil, perr != nil)
+	x.R.Mark("nontrivial", mc.Hash(payload, soft))
+	sig := "C13:" + implName(soft) + ":framing"
+	if pp != "" {
+		x.Fail(sig+":panic", "UnmarshalPartialResource panicked on %q: %s", payload, pp)
+		return
+	}
+	if fp != "" {
+		return // C05's business
+	}
+	if (ferr == nil) != (perr == nil) {
+		x.Fail(sig+":acceptance-differs", "payload %q: full unmarshal error=%v, partial unmarshal error=%v", payload, ferr, perr)
+	}
+}
+
 func init() {
 	Register(&Prop{
 		ID: "C13",
-		Rule: "Engine A, all choices Full, complete product: {soft,struct-backed} x 3 attributes each in {absent, valid, explicit null, wrong kind} x 2 relationships each in 10 forms x a second to-one relationship in 4 forms, plus a reduced product (1 attribute) with the partial call under every iteration order of one member map (deviation bound 1) (absent, {}, links only, meta only, data:null, identifier, data:[], list of 2, wrong kind, data+links) x {plain, unknown attribute, unknown relationship with/without data, unknown type}. plus two schemas declaring a same-named type with the same field names and different definitions (4 x 4 kinds, both cardinalities, soft/struct), used alternately. Oracle: partial accepts iff full accepts; on acceptance Attrs()/Rels() = names present / names with a data member, definitions = schema's, values = full unmarshaling's, every other schema field reads nil. Non-trivial = accepted payload with a proper, non-empty subset of the fields",
-		Harnesses: []Harness{{Name: "C13/payload", Body: c13Body}, {Name: "C13/member-order", Body: c13Order, Dev: func() int { return 1 }}, {Name: "C13/two-schemas", Body: c13TwoSchemas}},
+		Rule: "Engine A, all choices Full, complete product: {soft,struct-backed} x 3 attributes each in {absent, valid, explicit null, wrong kind} x 2 relationships each in 10 forms x a second to-one relationship in 4 forms, plus a reduced product (1 attribute) with the partial call under every iteration order of one member map (deviation bound 1) (absent, {}, links only, meta only, data:null, identifier, data:[], list of 2, wrong kind, data+links) x {plain, unknown attribute, unknown relationship with/without data, unknown type}. plus two schemas declaring a same-named type with the same field names and different definitions (4 x 4 kinds, both cardinalities, soft/struct), used alternately. plus framing: 18 cores (valid, repeated members, missing id/type, null/array/string/number/empty, null or ill-shaped attributes/relationships members) x 7 leading x 13 trailing byte strings (whitespace, BOM, NUL, second value, stray bracket, comment) x 3 truncations. Oracle: partial accepts iff full accepts; on acceptance Attrs()/Rels() = names present / names with a data member, definitions = schema's, values = full unmarshaling's, every other schema field reads nil. Non-trivial = accepted payload with a proper, non-empty subset of the fields",
+		Harnesses: []Harness{{Name: "C13/payload", Body: c13Body}, {Name: "C13/member-order", Body: c13Order, Dev: func() int { return 1 }}, {Name: "C13/two-schemas", Body: c13TwoSchemas}, {Name: "C13/framing", Body: c13Framing}},
 	})
 }
